@@ -228,7 +228,7 @@ class Type1Tag(Tag):
                 tag_memory[offset+i] = data[i]
             # Write a terminator tlv if space permits. We may have to
             # skip reserved and lock bytes.
-            offset = offset + i + 1
+            offset = offset + len(data)
             while offset < tag_memory_size:
                 if offset not in skip_bytes:
                     tag_memory[offset] = 0xFE
